@@ -502,6 +502,8 @@ func (s *SendStream) CancelWrite(errorCode StreamErrorCode) {
 
 	reliableOffset := s.reliableOffset()
 	if reliableOffset == 0 {
+		// the reliable size is fixed from now on, also if support for RESET_STREAM_AT is enabled later
+		s.reliableSize = 0
 		s.numOutstandingFrames = 0
 		s.returnFramesToPool()
 	}
